@@ -124,23 +124,34 @@ impl Monitor for C04 {
         if c.dialect == Dialect::Xsd {
             obs.count("xsd_dialect");
         }
+        // "tokenize yields exactly the pieces between consecutive matches": the common span sequence
+        // must also be the right one (leftmost, in the match relation / ordered choice), otherwise
+        // three loops that miss the same match would look consistent
+        if c.ast.is_some() && c.dialect == Dialect::XPath {
+            match ref_check(c, &mut Obs::scratch(), Wants { spans: true, ..Default::default() }) {
+                Outcome::Violated(f) => return Outcome::Violated(f),
+                Outcome::Held => obs.count("spans_also_checked_against_reference"),
+                Outcome::Inconclusive(_) => {}
+            }
+        }
         Outcome::Held
     }
     fn workload(&self, w: &Work, emit: &mut dyn FnMut(Case)) -> J {
         let n = w.share(160_000, 5_000_000);
         let mut rng = w.rng("C04", 1);
-        let alpha = ['a', 'b', 'a', 'b', 'A', ' ', '\u{10400}', '\u{301}'];
+        let alpha = ['a', 'b', 'a', 'b', 'A', ' ', '\u{10400}', '\u{301}', '\n'];
         let mut cfg = GenCfg::std(&alpha);
         cfg.no_nullable_quant = true;
         let common = common_cfg(&alpha);
         let extra = ['a', 'b', '\u{10400}', '\u{301}', '\n', ' '];
         for k in 0..n {
             let xsd = k % 3 == 2;
-            let ast = if xsd { gen_pattern(&mut rng, &common) } else { gen_pattern(&mut rng, &cfg) };
+            let line = k % 12 == 1;
+            let ast = if xsd { gen_pattern(&mut rng, &common) } else if line { gen_line_shape(&mut rng, &['a', 'b', '#']) } else { gen_pattern(&mut rng, &cfg) };
             if ast.nullable() {
                 continue;
             }
-            let fl = *rng.pick(&["", "", "i", "s", "m"]);
+            let fl = if line { *rng.pick(&["m", "ms"]) } else { *rng.pick(&["", "", "i", "s", "m"]) };
             for j in 0..3 {
                 let mut inp = gen_input(&mut rng, &ast, &extra, 8);
                 if j == 2 {
